@@ -146,6 +146,8 @@ func (w *world) apply(op WOp) {
 		w.setRoot(op)
 	case "rollback":
 		w.rollback(op)
+	case "steer":
+		w.steer(op)
 	case "prove":
 		w.prove(op)
 	case "verify":
